@@ -127,7 +127,7 @@ func init() {
 		Assumptions: stdAssumptions})
 	register(&Property{ID: "C03", Title: "HSMS decoder accepts exactly well-formed messages",
 		Rules:       []Rule{rFraming, rSTypes, rDispatch, rDivisible, rShift, rContH, rWidth, only(rIface, "hsms.parser", "consumer:"), only(rCkRep, "ast.New"), only(rAllocH, "R6-alloc"), rAdvance, rDomNodes, only(rDomMsg, "NewHSMSDataMessage")},
-		Explanation: "Every rejection the statement lists that has a structural form is decided as a guard denotation or a dominance fact: at least 14 bytes and success exactly when declared length equals bytes present (R5), PType 0 and exactly the E37 STypes over all 256x5 header byte pairs, with the right constructor per SType (R1d), exactly the 42 E5 format bytes with 1-3 length bytes accepted over all 256 values (R1c), payload length divisible by the element width in all three numeric handlers (R17), all bytes consumed before a data message is built (R5), lengths read without losing bits (R4), declared lengths checked against the remaining input (R6), constructor refusals converted to ok=false (R7), values built through validating factories with agreeing types and widths (R13, R2, R22). Values must be representable: the factories the decoder feeds refuse NaN/Inf/out-of-range/non-ASCII exactly (R14-domain), and the position advances by the declared length (R5b).",
+		Explanation: "Every rejection the statement lists that has a structural form is decided as a guard denotation or a dominance fact: at least 14 bytes and success exactly when declared length equals bytes present (R5), PType 0 and exactly the E37 STypes over all 256x5 header byte pairs, with the right constructor per SType (R1d), exactly the 42 E5 format bytes with 1-3 length bytes accepted over all 256 values (R1c), payload length divisible by the element width in all three numeric handlers (R17), all bytes consumed before a data message is built (R5), lengths read without losing bits (R4), declared lengths checked against the remaining input (R6), constructor refusals converted to ok=false (R7), values built through validating factories with agreeing types and widths (R13, R2, R22). Values must be representable: the factories the decoder feeds refuse NaN/Inf/out-of-range/non-ASCII exactly (R14-domain), and the position advances by the declared length (R5b). Evaluated on concrete texts, a list whose text ends at an element boundary before the declared count is refused and the complete text next to it accepted (R5b short-list); a control message of every E37 SType is accepted whatever its header bytes 0-3 hold, and its ten header bytes are handed on unchanged (R1d control-header-bytes); the framing test and the 'no bytes after the item' test are evaluated on 87 framings and 15 data messages (R5).",
 		NotDecided:  "that position arithmetic and slice bounds implement the grammar for every byte string, and re-encoding equality, are not decided (an independent reference decoder comparison is dynamic).",
 		Assumptions: stdAssumptions})
 	register(&Property{ID: "C04", Title: "SML print->parse round trip",
@@ -177,7 +177,7 @@ func init() {
 		Assumptions: stdAssumptions})
 	register(&Property{ID: "C14", Title: "HSMS control messages",
 		Rules:       []Rule{rCtlLayout, rSTypes, only(rDecHdr, "control"), only(rImmut, "ControlMessage", "NewHSMSControlMessage", "NewHSMSMessage")},
-		Explanation: "Each of the 8 typed constructors is evaluated symbolically and its 10 header bytes are compared, as terms over the parameters, with the E37 layout: session id high/low (0xFF 0xFF for linktest), byte 2 (0, or the rejected SType / PType when the reason is 2, decided per reason code), byte 3 status/reason, byte 4 never written, byte 5 the constructor's SType, bytes 6-9 from the caller's or the request's system bytes; responses copy bytes 0-1 and 6-9 of the request and refuse exactly the requests whose Type() is not the paired one (R21); the encoder emits 00 00 00 0A then the whole header; Type() returns the E37 name for all 256 STypes x 6 PTypes and never panics, the decoder accepts exactly those STypes and passes the 10 header bytes on (R1d, R21-decode).",
+		Explanation: "Each of the 8 typed constructors is evaluated symbolically and its 10 header bytes are compared, as terms over the parameters, with the E37 layout: session id high/low (0xFF 0xFF for linktest), byte 2 (0, or the rejected SType / PType when the reason is 2, decided per reason code), byte 3 status/reason, byte 4 never written, byte 5 the constructor's SType, bytes 6-9 from the caller's or the request's system bytes; responses copy bytes 0-1 and 6-9 of the request and refuse exactly the requests whose Type() is not the paired one (R21); the encoder emits 00 00 00 0A then the whole header; Type() returns the E37 name for all 256 STypes x 6 PTypes and never panics, the decoder accepts exactly those STypes and passes the 10 header bytes on (R1d, R21-decode). Evaluated on 256 concrete control messages (every SType; bytes 0-3 at their extremes) the decoder accepts each and builds it from exactly its ten header bytes; the control frame evaluated on ten distinct header bytes is 00 00 00 0A followed by them.",
 		NotDecided:  "behaviour of the generic constructor for a header that is not 10 bytes long is outside the statement.",
 		Assumptions: stdAssumptions})
 	register(&Property{ID: "C15", Title: "Declared item sizes are enforced",
